@@ -73,9 +73,10 @@ def run_api_op(kind, op, op_index, solver, sc, h, recog: Recognizer, world, reco
 
     def v(clause, detail, sig=None):
         from gen.formulas import features_with_grammar
+        from gen.grammars import grammar_features
 
         d = {"property": "C18", "clause": clause, "op_index": op_index, "solver": i, "detail": detail[:400],
-             "features": features_with_grammar(sc["formula"], sc["grammar"]) + _setting_tags(sc["settings"])}
+             "features": features_with_grammar(sc["formula"], sc["grammar"]) + _setting_tags(sc["settings"]) + grammar_features(sc["grammar"])}
         if sig:
             d["signature"] = sig
         viol.append(d)
